@@ -16,8 +16,9 @@ package fasthttpadaptor
 // Proto/ProtoMajor/ProtoMinor, Host, Header and body.
 //
 // The oracle is net/http itself (server, ReadRequest, ReadResponse); nothing of fasthttp's
-// parsing/serialisation is used on the oracle side. fasthttputil's in-memory listener is only the
-// byte transport for both servers.
+// parsing/serialisation is used on the oracle side. Both servers listen on an in-memory listener
+// built on net.Pipe (fasthttputil's pipe connections cannot be used under net/http: a blocked Read is
+// not woken by SetReadDeadline, which net/http's server relies on).
 
 import (
 	"bufio"
@@ -46,19 +47,20 @@ import (
 
 const (
 	// response side
-	vpC36KeyInfo   = "C36/informational-writeheader-latches"
-	vpC36KeyLate   = "C36/header-edit-after-commit-sent"
-	vpC36KeyWHLate = "C36/writeheader-after-write-honored"
-	vpC36KeyCT304  = "C36/content-type-not-suppressed-on-304"
+	vpC36KeyInfo    = "C36/informational-writeheader-latches"
+	vpC36KeyLate    = "C36/header-edit-after-commit-sent"
+	vpC36KeyWHLate  = "C36/writeheader-after-write-honored"
+	vpC36KeyCT304   = "C36/content-type-not-suppressed-on-304"
 	vpC36KeyMultiCT = "C36/repeated-content-type-collapsed"
 	// ConvertRequest side
-	vpC36KeyMinor   = "C36/convertrequest-protominor-always-1"
-	vpC36KeyConn10  = "C36/convertrequest-http10-synthetic-connection-close"
-	vpC36KeyHostLC  = "C36/convertrequest-host-lowercased"
-	vpC36KeySlash2  = "C36/convertrequest-double-slash-target"
-	vpC36KeySynCL   = "C36/convertrequest-synthetic-content-length"
-	vpC36KeySpecial = "C36/convertrequest-special-headers-collapsed"
-	vpC36KeyChunked = "C36/convertrequest-empty-chunked-body-rewritten"
+	vpC36KeyMinor     = "C36/convertrequest-protominor-always-1"
+	vpC36KeyConn10    = "C36/convertrequest-http10-synthetic-connection-close"
+	vpC36KeyHostLC    = "C36/convertrequest-host-lowercased"
+	vpC36KeySlash2    = "C36/convertrequest-double-slash-target"
+	vpC36KeySynCL     = "C36/convertrequest-synthetic-content-length"
+	vpC36KeySpecial   = "C36/convertrequest-special-headers-collapsed"
+	vpC36KeyChunked   = "C36/convertrequest-empty-chunked-body-rewritten"
+	vpC36KeyMultipart = "C36/convertrequest-multipart-body-reserialized"
 )
 
 // vpC36Mask lists the single observations that are not compared for a case because they are the
@@ -196,7 +198,7 @@ func vpC36TakeSnap(r *http.Request) *vpC36Snap {
 // vpC36Case is the case currently installed in the two long-lived servers.
 type vpC36Case struct {
 	prog *vpC36Prog
-	snap [2]*vpC36Snap   // what the handler saw: [0] under net/http, [1] under the adaptor
+	snap [2]*vpC36Snap    // what the handler saw: [0] under net/http, [1] under the adaptor
 	done [2]chan struct{} // closed when ServeHTTP returned
 	hits [2]atomic.Int32
 }
@@ -806,6 +808,17 @@ func vpC36GenReq(t *rapid.T, rich bool, excl map[string]bool) *vpC36Req {
 	if hasBody {
 		r.Body = vpC36GenData(t)
 		r.flags["body"] = true
+		if rich && seen["Content-Type"] == 0 && vpKnownOpen(vpC36KeyMultipart) {
+			excl[vpC36KeyMultipart] = true
+		} else if rich && seen["Content-Type"] == 0 && rapid.IntRange(0, 6).Draw(t, "multipart") == 0 {
+			// a well-formed multipart/form-data body (fasthttp's server pre-parses those)
+			r.flags["multipart"] = true
+			lines = append(lines, [2]string{"Content-Type", "multipart/form-data; boundary=vpb"})
+			r.Body = []byte(rapid.SampledFrom([]string{
+				"--vpb\r\nContent-Disposition: form-data; name=\"f\"\r\n\r\nvalue\r\n--vpb--\r\n",
+				"preamble\r\n--vpb\r\ncontent-type: text/plain\r\nContent-Disposition: form-data; name=\"a\"; filename=\"x.txt\"\r\n\r\nfile\r\n--vpb\r\nContent-Disposition: form-data; name=\"b\"\r\n\r\n2\r\n--vpb--\r\nepilogue",
+			}).Draw(t, "mpbody"))
+		}
 		if r.Proto == "HTTP/1.1" && rapid.IntRange(0, 3).Draw(t, "chunked") == 0 {
 			r.Chunked = true
 			r.flags["chunked"] = true
@@ -1090,7 +1103,7 @@ func vpC36ClassOf(in vpC36ProgInfo, req *vpC36Req) string {
 
 func vpC36ReqClassOf(req *vpC36Req) string {
 	var f []string
-	for _, k := range []string{"http10", "nohost", "absform", "body", "chunked", "repeated", "multicookie"} {
+	for _, k := range []string{"http10", "nohost", "absform", "body", "chunked", "multipart", "repeated", "multicookie"} {
 		if req.flags[k] {
 			f = append(f, k)
 		}
@@ -1158,6 +1171,8 @@ func vpC36Probes(e *vpC36Env) {
 		run(vpC36KeyCT304, &vpC36Prog{Ops: []vpC36Op{{Kind: vpC36OpSet, Name: "Content-Type", Val: "text/plain"}, {Kind: vpC36OpWriteHeader, Code: 304}}}, get, resp)
 		run(vpC36KeyChunked, &vpC36Prog{}, vpC36RawBody(vpC36RawReq("POST", "/p", "HTTP/1.1", "Host: example.com", "X-A: 1", "Transfer-Encoding: chunked", "X-A: 2"), "0\r\n\r\n", ""), reqField(`request header`))
 		run(vpC36KeyMultiCT, &vpC36Prog{Ops: []vpC36Op{{Kind: vpC36OpAdd, Name: "Content-Type", Val: "text/plain"}, {Kind: vpC36OpAdd, Name: "Content-Type", Val: "image/png"}, ok}}, get, resp)
+		mp := "preamble\r\n--vpb\r\ncontent-type: text/plain\r\nContent-Disposition: form-data; name=\"a\"; filename=\"x.txt\"\r\n\r\nfile\r\n--vpb\r\nContent-Disposition: form-data; name=\"b\"\r\n\r\n2\r\n--vpb--\r\nepilogue"
+		run(vpC36KeyMultipart, &vpC36Prog{}, vpC36RawBody(vpC36RawReq("POST", "/p", "HTTP/1.1", "Host: example.com", "Content-Type: multipart/form-data; boundary=vpb", "Content-Length: "+strconv.Itoa(len(mp))), mp, mp), reqField("Body"))
 		run(vpC36KeyMinor, &vpC36Prog{}, vpC36RawReq("GET", "/p", "HTTP/1.0", "Host: example.com"), reqField("ProtoMinor"))
 		run(vpC36KeyConn10, &vpC36Prog{}, vpC36RawReq("GET", "/p", "HTTP/1.0", "Host: example.com"), reqField(`request header "Connection"`))
 		run(vpC36KeyHostLC, &vpC36Prog{}, vpC36RawReq("GET", "/p", "HTTP/1.1", "Host: EXAMPLE.org"), reqField("Host:"))
@@ -1210,7 +1225,7 @@ func TestVP_C36_Handler(t *testing.T) {
 			vpExclude(k)
 		}
 		if o.harness != "" {
-			t.Fatalf("harness/reference failure (not a property verdict): %s\nrequest %q\nprogram %s", o.harness, req.Raw, prog)
+			t.Fatalf("VP-INCONCLUSIVE harness/reference failure (not a property verdict): %s\nrequest %q\nprogram %s", o.harness, req.Raw, prog)
 		}
 		in := o.info
 		nontrivial := len(prog.Ops) >= 2 && (in.writes > 0 || len(in.touched) > 0 || in.flush)
@@ -1246,7 +1261,7 @@ func TestVP_C36_Request(t *testing.T) {
 			vpExclude(k)
 		}
 		if o.harness != "" {
-			t.Fatalf("harness/reference failure (not a property verdict): %s\nrequest %q\nprogram %s", o.harness, req.Raw, prog)
+			t.Fatalf("VP-INCONCLUSIVE harness/reference failure (not a property verdict): %s\nrequest %q\nprogram %s", o.harness, req.Raw, prog)
 		}
 		nontrivial := len(req.Lines) >= 2 || len(req.Body) > 0 || strings.ContainsAny(req.Target, "%?")
 		vpCase(vpC36ReqClassOf(req), nontrivial, string(req.Raw), func() string {
